@@ -199,6 +199,14 @@ class Program(object):
         # type: () -> str
         """ Returns a string with commands formatted in the MPilot command file syntax. """
 
+        def quote(text):
+            # type: (str) -> str
+            """ Quotes a string so that the parser reads back exactly the same text """
+
+            return '"{}"'.format(
+                six.text_type(text).replace("\\", "\\\\").replace('"', '\\"')
+            )
+
         def serialize_value(value, argument, command):
             # type: (Any, Argument, Command) -> str
 
@@ -210,7 +218,7 @@ class Program(object):
             ):
                 return str(value)
             if isinstance(value, six.string_types):
-                return '"{}"'.format(value)
+                return quote(value)
             else:
                 return str(value)
 
@@ -226,7 +234,7 @@ class Program(object):
             elif isinstance(argument.value, dict):
                 return "[\n{}\n    ]".format(
                     ",\n".join(
-                        '        "{}": "{}"'.format(key, value)
+                        "        {}: {}".format(quote(key), quote(value))
                         for key, value in argument.value.items()
                     )
                 )
